@@ -22,6 +22,7 @@
     computed (the walk returns no state on the error path): it is ANY register file, chosen by the history.
 -/
 import BufrModel.Coder.Decode
+import BufrModel.Msg.Stream
 namespace Bufr
 
 /-- `CoderState.reset_template_state`: every register of the template walk is assigned its initial value (the
@@ -99,5 +100,25 @@ def runP (reset : Regs → Regs) : List POp → Regs → Regs
 def resultsP (reset : Regs → Regs) : List POp → Regs → List (CM (List SubsetOut × Bits))
   | [], _ => []
   | op :: ops, r => (op.run reset r).1 :: resultsP reset ops (op.run reset r).2
+
+/-- forget the registers a decode returns -/
+def dropRegs (x : CM (List SubsetOut × Bits × Regs)) : CM (List SubsetOut × Bits) :=
+  match x with
+  | .ok (o, rest, _) => .ok (o, rest)
+  | .error e => .error e
+
+/-- `Stream.tableCoder` with the reader of the data section as a parameter -/
+def tableCoderOf (F : List Desc → Bool → Nat → Bits → CM (List SubsetOut × Bits)) (T : Tables) : DataCoder (List SubsetOut) where
+  dec := fun reg bits =>
+    match reg.get? "unexpanded_descriptors", reg.get? "is_compressed", reg.get? "n_subsets" with
+    | some { val := .descs ids, .. }, some { val := .bool comp, .. }, some { val := .int n, .. } =>
+      match build T ids with
+      | .error e => .error e
+      | .ok tmpl => F tmpl comp n.toNat bits
+    | _, _, _ => .error .other
+
+/-- the data coder of a process whose last walk left `r` (what `Stream.tableCoder` is for a fresh process) -/
+def tableCoderW (reset : Regs → Regs) (T : Tables) (r : Regs) : DataCoder (List SubsetOut) :=
+  tableCoderOf (fun tmpl comp n bits => dropRegs (decodeDataW reset tmpl comp n r bits)) T
 
 end Bufr
